@@ -148,6 +148,8 @@ def gen_visibility(rng, schema):
     roots = {r.name for r in (schema.query_type, schema.mutation_type, schema.subscription_type) if r is not None}
     cand = [n for k in names for n in names[k] if n not in roots]
     v = {"k": "visibility", "types": [], "fields": [], "inputs": [], "dirs": []}
+    if rng.random() < 0.12:
+        return v      # hides nothing: must behave like clone() and must not be rejected
     r = rng.random()
     if cand and r < 0.7:
         v["types"] = sorted(rng.sample(cand, rng.randint(1, min(2, len(cand)))))
@@ -667,6 +669,10 @@ def one_sequence(ctx, seed_note, size, n_steps, steps=None, build_seed=None):
             if not any(s == sig for s, _ in found):
                 found.append((sig, what))
 
+        if status.startswith("rejected:") and step["op"] in ("clone", "transform") and not any(
+                v.get("types") or v.get("fields") or v.get("inputs") or v.get("dirs") or v.get("drop") for v in step.get("visitors", [])):
+            fail("step-raises:%s:rejected-without-removal:%s" % (step["op"], "+".join(v["k"] for v in step.get("visitors", []))),
+                 "%s that removes nothing was rejected with %s (the source validates)" % (step["op"], status))
         if status.startswith("internal:"):
             fail("step-raises:%s:%s" % (step["op"], status.split(":")[1]), "%s raised %s" % (step["op"], status))
         # --- frame condition on the source (identities included)
